@@ -54,7 +54,7 @@ def c10():
                 "criteria; plus moment-collision stream; each criterion object called twice in "
                 "shuffled order (purity); non-trivial = distinct argument tuples",
         "trusted": COMMON_TRUST + [
-            "translator /verif/translator/py2coq.py + Gen/NumpySem.v (GenTie.v proves Gen = Model)",
+            "translator /verif/translator/py2coq.py + Gen/NumpySem.v (Proofs/GenTie{Sim,Merges,Mem,Util,Mr}.v prove Gen = Model)",
             "numpy exp: Section hypotheses fexp_unit / fexp_mono_np (maps finite non-positive "
             "floats into [0,1], monotone there); recorded values used as a table in the suite"],
         "assumptions": ["libm exp is monotone and maps non-positive finite floats into [0,1]"],
@@ -80,7 +80,7 @@ def c11():
                 "dtype that holds the count, random magnitudes up to and beyond n*sum k = 2^63; "
                 "wrappers on packed/unpacked fingerprint arrays; non-trivial = distinct, sum k > 0",
         "trusted": COMMON_TRUST + [
-            "translator /verif/translator/py2coq.py + Gen/NumpySem.v (GenTie.v proves Gen = Model)"],
+            "translator /verif/translator/py2coq.py + Gen/NumpySem.v (Proofs/GenTie{Sim,Merges,Mem,Util,Mr}.v prove Gen = Model)"],
         "assumptions": ["C11_exact is proved for n*sum k < 2^52 (every intermediate exact); between "
                         "2^52 and 2^63 the theorem is C11_nowrap_partial (no uint64 wrap) and the "
                         "value is tied bit-exactly by correspondence, the relative-error bound of "
@@ -91,7 +91,7 @@ def c11():
 HIST_TRUST = COMMON_TRUST + [
     "hand-written tree/estimator model (Model/Tree.v, Model/Birch.v) tied to bblean/bitbirch.py by "
     "differential execution only; Python buffer aliasing between old and new trees is exercised, not modelled",
-    "translator-tied kernels: merge criteria, iSIM, centroid (Proofs/GenTie.v)"]
+    "translator-tied kernels: merge criteria, iSIM, centroid (Proofs/GenTieSim.v, GenTieMerges.v)"]
 HIST_RULE = ("random operation histories (fit in 4 input forms / failing fit / refine / recluster with "
              "shuffle / set_merge / delete_internal_nodes / reset), 3-24 bits, branching 2-7, all six "
              "criteria, thresholds 0..1, noisy copies of 1-4 prototypes + zero/one/duplicate rows; "
@@ -140,17 +140,42 @@ def c08():
 
 def c09():
     import suite_hist
+    import suite_mr
+
+    def search(seed, tier, failures):
+        hit = suite_hist.search_hist("C09")(seed, tier, failures)
+        if hit is not None:
+            return hit
+        for kind, d in failures:
+            if isinstance(d, dict) and "what" in d and "Model/" not in d["what"] and "case" in d:
+                return {"violation": d["what"], "case": d["case"]}
+        rr = suite_mr.suite_mr_files(seed + 1, "quick")
+        for d in rr.bad:
+            if "Model/" not in d["what"] and "separated" in d["what"]:
+                return {"violation": d["what"], "case": d["case"]}
+        return None
+
+    def replay(payload):
+        fi = payload.get("failing_input") or {}
+        if "case" in fi:
+            return suite_mr.replay_mr("C09")(payload)
+        return suite_hist.replay_hist("C09")(payload)
     return {
         "props_file": "Props/C09.v",
-        "theorems": ["C09_recluster", "C09_refine", "C09_fit", "C09_blocks_are_clusters", "C09_units"],
-        "suites": [suite_hist.suite_hist_api],
-        "search": suite_hist.search_hist("C09"),
-        "replay": suite_hist.replay_hist("C09"),
+        "theorems": ["C09_recluster", "C09_refine", "C09_fit", "C09_blocks_are_clusters", "C09_units",
+                     "C09_multiround_coarsens", "C09_multiround_stay_together", "C09_round_lists_are_files"],
+        "model_files": ["Model/Obs.v", "Model/Multiround.v", "Gen/GMr.v", "Proofs/GenTieMr.v"],
+        "suites": [suite_hist.suite_hist_api, suite_mr.suite_mr_files],
+        "search": search,
+        "replay": replay,
         "level": "proof",
-        "rule": HIST_RULE,
+        "rule": HIST_RULE + "; multiround-files: random multi-round workflows (see C05) whose output "
+                "directories are compared file by file with Model/Multiround.v, and on which the statement "
+                "'a group of round r is inside one group of round r+1 / one final cluster, unless it is the "
+                "cluster a task exploded into singletons' is evaluated directly",
         "trusted": HIST_TRUST,
         "assumptions": ["shuffle results are permutations (recorded from random.shuffle)",
-                        "multi-round half of C09 (rounds only coarsen) is covered by the C05 model"],
+                        "multi-round theorems: cleanup off (all rounds visible), nf < 2^52, N < 2^64, bf >= 2, bin >= 1"],
     }
 
 
@@ -160,7 +185,8 @@ def c02():
     return {
         "props_file": "Props/C02.v",
         "theorems": ["C02_exact", "C02_aligned", "C02_merge_exact", "C02_update_exact",
-                     "C02_width_holds_count", "C02_boundary_255"],
+                     "C02_width_holds_count", "C02_boundary_255",
+                     "C02_clusters_nonempty", "C02_centroid_is_majority"],
         "suites": [suite_sub.suite_sub, suite_hist.suite_boundary, suite_hist.suite_tree_walk],
         "search": suite_hist.search_hist("C02"),
         "replay": suite_hist.replay_hist("C02"),
@@ -224,7 +250,7 @@ def c07():
     import suite_c07
     return {
         "props_file": "Props/C07.v",
-        "theorems": ["C07_insert_refines", "C07_fit_refines", "C07_stored_is_recomputed"],
+        "theorems": ["C07_insert_refines", "C07_fit_refines", "C07_stored_is_recomputed", "C07_nonvacuous_instance"],
         "model_files": ["Model/Obs.v", "Model/ObsBits.v", "Model/Spec.v"],
         "suites": [suite_hist.suite_tree_walk, suite_hist.suite_exhaustive,
                    suite_c07.suite_dissim_choice, suite_c07.suite_legacy],
@@ -270,7 +296,8 @@ def c20():
     return {
         "props_file": "Props/C20.v",
         "theorems": ["C20_reader_safe", "C20_monotone", "C20_final_value", "C20_inplace_refuted",
-                     "C20_nonvacuous"],
+                     "C20_nonvacuous", "C20_two_readers_safe", "C20_two_readers_monotone",
+                     "C20_published_never_disappears"],
         "model_files": ["Model/Monitor.v"],
         "suites": [suite_monitor.suite_monitor],
         "search": suite_monitor.search_c20,
@@ -368,7 +395,7 @@ def c15():
         "props_file": "Props/C15.v",
         "theorems": ["C15_nonempty_refused", "C15_overwrite", "C15_overwrite_never_refuses",
                      "C15_run_config_total", "C15_refine_options", "C15_plan_fits_all_files"],
-        "model_files": ["Model/Cli.v"],
+        "model_files": ["Model/Cli.v", "Model/ObsCli.v"],
         "suites": [suite_cli.suite_cli],
         "search": suite_cli.search_c15,
         "replay": suite_cli.replay_c15,
@@ -391,7 +418,8 @@ def c14():
     return {
         "props_file": "Props/C14.v",
         "theorems": ["C14_rerun_equals_fresh", "C14_rerun_frame", "C14_globs_are_purged", "C14_cleanup",
-                     "C14_no_partial_final", "C14_run_is_writes", "C14_failed_run_no_final"],
+                     "C14_no_partial_final", "C14_run_is_writes", "C14_failed_run_no_final",
+                     "C14_nonvacuous", "C14_instance_not_trivial"],
         "model_files": ["Model/Multiround.v", "Gen/GMr.v", "Proofs/GenTieMr.v"],
         "suites": [suite_mr.suite_crash, suite_mr.suite_mr_files],
         "search": suite_mr.search_mr("C14"),
@@ -416,7 +444,7 @@ def c05():
     return {
         "props_file": "Props/C05.v",
         "theorems": ["C05_partition_and_centroids", "C05_pairs_aligned", "C05_handed_over",
-                     "C05_any_directory", "C05_nonvacuous"],
+                     "C05_any_directory", "C05_nonvacuous", "C05_centroids_are_majority"],
         "model_files": ["Model/Multiround.v", "Gen/GMr.v", "Proofs/GenTieMr.v"],
         "suites": [suite_mr.suite_mr_files],
         "search": suite_mr.search_mr("C05"),
@@ -446,7 +474,7 @@ def c06():
         "model_files": ["Model/Multiround.v", "Gen/GMr.v", "Proofs/GenTieMr.v"],
         "suites": [suite_mr.suite_sched, suite_mr.suite_mr_files],
         "search": suite_mr.search_mr("C06"),
-        "replay": suite_mr.replay_mr("C06"),
+        "replay": suite_mr.replay_c06,
         "level": "proof",
         "rule": "sched: for random workflows with >= 3 input files the real run_multiround_bitbirch runs with "
                 "an in-process pool stand-in that executes the tasks of every round in reversed / rotated / "
